@@ -26,7 +26,8 @@ CHANGE = {
  ('seeded7','C17'): ("Debt::pay_all skips nodes no thread owns (Node::is_owned)", "a projection guard that outlives its loading thread's ownership of the node, then a store"),
  ('seeded7','C19'): ("unsafe impl Sync for ArcSwapAny<T, S> with bounds on T::Base instead of T", "a container of Rc / rc::Weak with a thread-safe pointee shared by reference between threads"),
  ('seeded7','C20'): ("#[derive(Default)] for LocalNode replacing the three struct literals (the TLS-destroyed path loses its node)", "serialization / deserialization from a thread-local destructor after the crate's thread-local is gone"),
- ('seeded7','C07'): ("", ""), ('seeded7','C09'): ("", ""),
+ ('seeded7','C07'): ("Debt::pay_all skips nodes that are not owned at the moment (Node::is_owned: in_use == NODE_USED), argued with a correct SeqCst ordering for later owners", "a guard whose node was handed back before the guard is dropped (a load from a thread-local destructor after the crate's own: temporary node), then a store"),
+ ('seeded7','C09'): ("RefCnt::as_ptr for Weak / rc::Weak no longer maps the dangling Weak::new() to null (into_ptr/from_ptr still do)", "compare_and_swap or rcu on an ArcSwapWeak that holds Weak::new(): the comparison never succeeds, the loop never ends, running alone"),
 }
 def main():
     for (d, pid), (change, needs) in sorted(CHANGE.items()):
